@@ -70,7 +70,9 @@ def run(tier):
     gitr += stops
     chain_conform(v, wd, "git-remote-faults", "git-remote",
                   fault_behaviours("git-remote", gitr, ("h1", "h2")), git_wrap=True)
-    http = [{"at": 1, "after": a} for a in (False, True)]
+    # a 500 response before / after the effect, and a connection closed without any response
+    # (a reply that is really lost: what a client-side retry would react to)
+    http = [{"at": 1, "after": a} for a in (False, True)] + [{"at": 1, "after": a, "drop": True} for a in (False, True)]
     chain_conform(v, wd, "http-lost-reply", "http", fault_behaviours("http", http, ("h1", "h2")))
 
     v.finish("fault_enumeration",
